@@ -102,6 +102,17 @@ def run_case(case, ctx):
     if rec['outcome'] != 'exit' or rec['status'] not in (0, 2, 3):
         out.append(viol('C10 audit of a well-framed peer failed (status %s)' % rec['status'], 'pad_extra=%r pad_byte=%r\n%s' % (p.get('pad_extra'), p.get('pad_byte'), rec['stdout'][-700:])))
         return {'violations': out, 'keys': []}
+    # every well-framed packet of the peer must be accepted whatever the segmentation: the report (which includes the
+    # probe-derived sizes and fingerprints) must equal the one obtained when every message arrives in one piece
+    if case['net'].get('seg', {}).get('mode', 'msg') != 'msg':
+        plan_ref = copy.deepcopy(plan)
+        plan_ref['net'] = {'rtt_us': 200, 'seg': {'mode': 'msg'}}
+        ref = ctx.run(plan_ref)
+        if not ref.get('harness_error') and (ref['stdout'] != rec['stdout'] or ref['status'] != rec['status']):
+            a, b = ref['stdout'].split('\n'), rec['stdout'].split('\n')
+            diff = [(x, y) for x, y in zip(a, b) if x != y][:2]
+            out.append(viol('C10 well-framed packets are not accepted alike under segmentation (report differs from the unsegmented run)',
+                            'net=%r\nfirst differing lines (unsegmented, segmented): %r' % (case['net'], diff)))
     srv = rec['servers'][0]
     own = {c: [wire.shown(x) for x in p.get(c, [])] for c in ('kex', 'key', 'enc', 'mac', 'comp', 'lang')}
     own['comp'] = [wire.shown(x) for x in p.get('comp', ['none'])]
